@@ -142,11 +142,15 @@ class C01(Check):
             cd, dd = wprog.final_bytes(outs[j + 1])
             exp = spec_entries(ops)
             com = [op[1] for op in ops if op[0] == "comment"]
-            meta = dict(k="prog", n=len(exp))
+            # programs with tens of thousands of entries: the writer model is quadratic in the entry count (list
+            # append / last element); they are judged by the oracle on the implementation only (C08 compares every
+            # header of such archives with the model's header writers)
+            huge = len(ops) > 20000
+            meta = dict(k="prog", n=len(exp), impl_only=huge)
             if df != dd:
                 meta["pre_violation"] = "finish() and drop produce different bytes"
             cases.append((lines[j], meta))
-            cases.append((lines[j + 1], dict(k="prog", n=len(exp))))
+            cases.append((lines[j + 1], dict(k="prog", n=len(exp), impl_only=huge)))
             if df is None:
                 continue
             if len(df) > (4 << 20):
